@@ -16,7 +16,7 @@ def tokOf : String → Option Tok
   | "other" => some .other
   | _ => none
 
-/-- `hdoc <quoted 0|1> <tabs 0|1> <openNodes> <stop-hex> <line-hex>*` → `closed <n>` | `unclosed <bool>`
+/-- `hdoc <quoted 0|1> <tabs 0|1> <caller openNodes> <stop-hex> <line-hex>*` → `closed <n>` | `unclosed <bool>` (doHeredocs reading one body)
     `sched <quoted 0|1> <items: h e l n t …> <stop-hex> <line-hex>*` → `unclosed <bool>` | `none`
     `inc <tok> <openNodes> <litLen>` → `<bool>` -/
 def handle (args : List String) : String :=
@@ -24,7 +24,7 @@ def handle (args : List String) : String :=
   | "hdoc" :: q :: t :: o :: stop :: lines =>
     match ofHex stop, lines.mapM ofHex, o.toNat? with
     | some st, some ls, some on =>
-      match scan true (q == "1") (t == "1") st (inBrackets .newl on 0) ls with
+      match readBody (q == "1") (t == "1") st (inBrackets .newl on 0) ls with
       | .closed body => s!"closed {body.length}"
       | .unclosedErr inc => s!"unclosed {inc}"
     | _, _, _ => "bad-op"
